@@ -116,6 +116,10 @@ def components(tier, disabled):
                                                    semantic_program(profile="direct", disabled=disabled, xflag=True),
                                                    semantic_program(profile="modelled+group", disabled=disabled)),
                              "check": check_analysis, "examples": 4000 if q else 200000, "sample": lambda c, i: RCFG(c).text}
+        # many more layout programs through the analysis alone (dead call sites in front of live labels, calls and
+        # branches as last instruction, ...): the seven CLI modes are too slow for more than a few hundred of them
+        comps["layout_analysis"] = {"strategy": st.one_of(layout_program(structured=True, max_subs=4), layout_program(structured=True, max_subs=3, reuse_targets=True)),
+                                    "check": check_analysis, "examples": 4000 if q else 200000, "sample": lambda c, i: RCFG(c).text}
         from vf.props.single_family import single_cases
 
         # the finite family of single direct checks (every operator / operand order / constant spelling), exhaustive
